@@ -39,6 +39,7 @@ func effective(kw int, def bool) bool {
 type DefCase struct {
 	Doc     []byte `json:"doc"`
 	V       MV     `json:"v"`
+	Defs    []MV   `json:"defs,omitempty"` // objects the ref nodes of V denote (shared parts)
 	DefSN   bool   `json:"def_sn"` // (json:use-string-numbers DefSN)
 	DefEI   bool   `json:"def_ei"` // (json:use-exact-integers DefEI)
 	KwSN    int    `json:"kw_sn"`  // load keyword :string-numbers: 0 absent, 1 false, 2 true
@@ -196,9 +197,14 @@ func checkDefaults(dc DefCase, ctx *vcommon.Ctx) *vcommon.Failure {
 	}
 
 	// ----- dumps of the value through the three entry points -----
-	m, rf := dc.V.resolve(e)
+	m, rf := dc.V.resolveIn(e, dc.Defs)
 	if rf != nil {
 		return rf
+	}
+	if classifyShared(dc.V, dc.Defs, c) {
+		if d := m.depth(); d >= encoderGuardDepth-1 {
+			c.Class("shared value crossing the encoder's guard depth")
+		}
 	}
 	if nonFiniteKind(m) != "" {
 		return nil
@@ -210,7 +216,11 @@ func checkDefaults(dc DefCase, ctx *vcommon.Ctx) *vcommon.Failure {
 	hazard := false
 	var msgNative *lisp.LVal
 	for _, fn := range []string{"json:dump-string", "json:dump-bytes", "json:dump-message"} {
-		v, pan := e.invokeKw(fn, m.toLVal(), false, kwArg{"string-numbers", dumpKw})
+		arg := m.toLVal()
+		if len(dc.Defs) > 0 {
+			arg = newBuilder(dc.Defs).build(dc.V)
+		}
+		v, pan := e.invokeKw(fn, arg, false, kwArg{"string-numbers", dumpKw})
 		r, f := observe(fn, v, pan)
 		if f != nil {
 			return f
@@ -289,9 +299,17 @@ func genDefCase() *rapid.Generator[DefCase] {
 			doc = []byte(b.String())
 		}
 		budget := 12
+		var v MV
+		var defs []MV
+		if rapid.IntRange(0, 7).Draw(t, "sharedv") == 3 {
+			v, defs = genSharedValue(t)
+		} else {
+			v = genMV(t, rapid.IntRange(0, 2).Draw(t, "vdepth"), &budget, false)
+		}
 		return DefCase{
 			Doc:     doc,
-			V:       genMV(t, rapid.IntRange(0, 2).Draw(t, "vdepth"), &budget, false),
+			Defs:    defs,
+			V:       v,
 			DefSN:   rapid.IntRange(0, 2).Draw(t, "def_sn") == 1,
 			DefEI:   rapid.Bool().Draw(t, "def_ei"),
 			KwSN:    rapid.SampledFrom([]int{kwAbsent, kwAbsent, kwFalse, kwTrue}).Draw(t, "kw_sn"),
